@@ -292,6 +292,8 @@ func init() {
 		x.pairsFor(fns, valid, 15000*x.scale)
 		x.ratioSweep(fns, false)
 		x.thresholdSweep(fns, streamValid, 80, 40)
+		x.orbitPairsSS(fns)
+		x.hashCollisions(fns)
 		x.pairsFor(fns, valid, 120000*x.scale)
 		relC01(x, 20000*x.scale)
 	}
@@ -351,6 +353,8 @@ func init() {
 		fns := []string{"LastIndex"}
 		x.ratioSweep(fns, false)
 		x.thresholdSweep(fns, streamValid, 80, 40)
+		x.orbitPairsSS(fns)
+		x.hashCollisions(fns)
 		x.pairsFor(fns, valid, 150000*x.scale)
 		relC08(x, 30000*x.scale)
 	}
@@ -373,12 +377,15 @@ func init() {
 	props["C11"] = func(x *Ctx) {
 		x.anyFor(both, 150000*x.scale)
 		x.anyGrid()
+		x.orbitPairsSS([]string{"IndexAny", "LastIndexAny"})
 	}
 	props["C12"] = func(x *Ctx) {
 		fns := []string{"Count", "Cut"}
 		x.ratioSweep(fns, false)
 		x.pairsFor(fns, valid, 120000*x.scale)
 		x.thresholdSweep(fns, streamValid, 60, 20)
+		x.orbitPairsSS(fns)
+		x.hashCollisions(fns)
 		for _, c := range "KkSsaZ1" { // single byte needles
 			for i := 0; i < 300*x.scale; i++ {
 				s, _ := x.g.byteCase(streamValid)
@@ -552,6 +559,45 @@ func (x *Ctx) orbitPairs() {
 		}
 	}
 	x.note("orbit-pair adjacency sweep: %d IndexRune cases", n)
+}
+
+// orbitPairsSS: the same arrangements (two different members of one orbit next to each other behind a
+// short prefix, optionally followed by a tail) for the two-string functions, the needle being one member
+// of the orbit alone or followed by the tail's first byte
+func (x *Ctx) orbitPairsSS(fns []string) {
+	pres := []string{"", "x", "é", "世"}
+	n := 0
+	for r := rune(0); r <= 0x10FFFF; r++ {
+		if orbitMin(r) != r {
+			continue
+		}
+		o := orbitOf(r)
+		if len(o) == 1 {
+			continue
+		}
+		for _, a := range o {
+			for _, b := range o {
+				if a == b {
+					continue
+				}
+				for pi, pre := range pres {
+					s := []byte(pre + string(a) + string(b))
+					s2 := []byte(pre + string(a) + string(b) + "z")
+					for _, m := range o {
+						for _, fn := range fns {
+							x.eval(&Case{Fn: fn, S: s, T: []byte(string(m))}, n%997 == 0)
+							if pi < 2 {
+								x.eval(&Case{Fn: fn, S: s2, T: []byte(string(m) + "z")}, false)
+								x.eval(&Case{Fn: fn, S: s2, T: []byte(string(m) + string(m))}, false)
+							}
+							n++
+						}
+					}
+				}
+			}
+		}
+	}
+	x.note("orbit-pair adjacency sweep (two-string functions): %d cases", n)
 }
 
 // anyGrid: (len s, len chars) across both thresholds x content classes
